@@ -210,6 +210,18 @@ def run(ctx):
         cases.append(_case1(g, names[i % len(names)], ctx.quick, takes_rnd))
     for i in range(n2):
         cases.append(_case2(g, ctx.quick))
+    # hyperbolic functions at large |x|: the code drops exp(-2|x|) once it is below the working precision; the switch sits at
+    # precisions around 2.885*|x| bits (|x| >= 1024), far above the ordinary precision range, so it gets its own small family
+    for i in range(10 if ctx.quick else 200):
+        name = rng.choice(["sinh", "cosh", "tanh"])
+        drv, raw, site, dom = FUN1[name]
+        k = rng.choice([10, 10, 10, 11])
+        m = (1 << 12) + rng.choice([0, 0, 1, rng.getrandbits(11)])          # |x| in [2^k, 2^k * 1.5)
+        e = k - 12
+        x = m * 2.0 ** e
+        pr = int(x * rng.uniform(2.55, 3.2)) - 14 + rng.choice([-1, 0, 1])
+        cases.append({"kind": "f1", "fun": name, "x": [m * rng.choice([1, -1]), e], "prec": pr, "rnd": rng.choice(RNDS) if raw else "n",
+                      "via": "raw" if raw else "api", "shape": "exp_tail_switch", "site": site})
 
     fails, reqs, owners = [], [], []
     noresult = {"timeout": 0, "exc": 0}
